@@ -37,6 +37,10 @@ func init() {
 const (
 	kfLineSyntax = "C18-wb-line-syntax"
 	kfEscaping   = "C18-wb-escaping"
+	// the library's parser terminates the process (log.Fatal) when the file is not there: while this
+	// is listed no history lets the file vanish between a reload's stat and its read, and no
+	// write-back is asked for while the file is away (witness kf_vanish, in a child process)
+	kfReadFatal = "C18-read-fatal"
 )
 
 func hasKF(c *core.Ctx, id string) bool {
@@ -66,13 +70,15 @@ func setStamp(path string, sec, ms int) {
 	}
 }
 
+// recObs is one observer object: it records who was called and what it was shown
 type recObs struct {
+	id    int
 	notes *[]interface{}
 	w     *world
 }
 
 func (o *recObs) ApplyConfig(c config.Config) {
-	*o.notes = append(*o.notes, snapshot(c))
+	*o.notes = append(*o.notes, core.Ev{"o": o.id, "s": snapshot(c)})
 	if w := o.w; w != nil && w.polling && w.applied && !w.notified {
 		// a poll taken apart: the first observer that is called lets the planned actions happen
 		// between the map assignment and the end of the reload
@@ -115,8 +121,19 @@ type world struct {
 	gate   bool   // the parser is wrapped: polls are taken apart (ilv.go)
 	plan   pollPlan
 	// state of the poll in progress
-	polling, inParse, entered, applied, notified bool
-	fail                                         string
+	polling, inParse, entered, applied, notified, aborted bool
+	fail                                                  string
+	// the rest of the configuration space: the observer registry, the process environment,
+	// whether the file is there
+	ob        *config.ConfigObserver
+	objs      []*recObs
+	wantOb    bool // hand a (possibly empty) registry to the constructor: observers are added later
+	env       map[string]string
+	envKeys   []string
+	gone      bool
+	everGone  bool
+	startGone bool
+	noFatal   bool // the parser does not terminate the process on a missing file (kfReadFatal not listed)
 }
 
 func newWorld(c *core.Ctx, t *core.Trace, r *rand.Rand) *world {
@@ -124,10 +141,164 @@ func newWorld(c *core.Ctx, t *core.Trace, r *rand.Rand) *world {
 	if err != nil {
 		panic(err)
 	}
-	return &world{c: c, t: t, r: r, dir: dir, home: dir, layout: "plain", path: filepath.Join(dir, "whatap.conf"), seen: map[string][]string{}, eol: "\n", final: true}
+	return &world{c: c, t: t, r: r, dir: dir, home: dir, layout: "plain", path: filepath.Join(dir, "whatap.conf"), seen: map[string][]string{}, eol: "\n", final: true,
+		env: map[string]string{}, noFatal: !hasKF(c, kfReadFatal)}
 }
 
-func (w *world) done() { os.RemoveAll(w.dir) }
+func (w *world) done() {
+	for k := range w.env {
+		os.Unsetenv(k)
+	}
+	os.RemoveAll(w.dir)
+}
+
+// ---------------------------------------------------------------- environment, observers, existence
+
+var obsNames = []string{"obs0", "obs1", "UdpClient", "TcpSession", "관찰자"}
+
+// envName: a variable name the history may set: a key of the file, a key the getters ask for
+// although no file has it, one of the library's defaults
+func (w *world) envName() string {
+	r := w.r
+	for tries := 0; tries < 50; tries++ {
+		var k string
+		switch x := r.Intn(10); {
+		case x < 5 && len(w.keyset) > 0:
+			k = w.keyset[r.Intn(len(w.keyset))]
+		case x < 5:
+			for _, l := range w.lines {
+				if l.T == "kv" && (k == "" || r.Intn(2) == 0) {
+					k = string(l.K)
+				}
+			}
+		case x < 7:
+			k = absentKeys[r.Intn(len(absentKeys))]
+		case x < 8:
+			k = defaultKeys[r.Intn(len(defaultKeys))]
+		default:
+			k = plainKey(r)
+		}
+		if usableKey(k) && !strings.ContainsAny(k, "=\x00") {
+			return k
+		}
+	}
+	return "absent_key"
+}
+
+func envValue(r *rand.Rand) string {
+	for {
+		v, _ := anyValue(r)
+		if r.Intn(3) == 0 {
+			v = pad(r, v) // the environment's value is handed out as it is
+		}
+		if !strings.Contains(v, "\x00") {
+			return v
+		}
+	}
+}
+
+// drawEnv: the environment the history starts with (recorded in Reset)
+func (w *world) drawEnv() {
+	if w.r.Intn(2) == 0 {
+		return
+	}
+	for n := 1 + w.r.Intn(3); n > 0; n-- {
+		k := w.envName()
+		if _, ok := w.env[k]; ok {
+			continue
+		}
+		w.putenv(k, envValue(w.r))
+	}
+}
+
+func (w *world) putenv(k, v string) {
+	if err := os.Setenv(k, v); err != nil {
+		panic(err)
+	}
+	if _, ok := w.env[k]; !ok {
+		w.envKeys = append(w.envKeys, k)
+	}
+	w.env[k] = v
+}
+
+// envChange sets, changes or unsets one variable in the middle of a history
+func (w *world) envChange() {
+	r := w.r
+	if len(w.envKeys) > 0 && r.Intn(3) == 0 {
+		k := w.envKeys[r.Intn(len(w.envKeys))]
+		if _, ok := w.env[k]; ok {
+			os.Unsetenv(k)
+			delete(w.env, k)
+			w.sig = append(w.sig, "unsetenv")
+			w.t.Emit(core.Ev{"ev": "Env", "k": core.Str(k), "v": core.Str(""), "set": false})
+			return
+		}
+	}
+	k, v := w.envName(), envValue(r)
+	w.putenv(k, v)
+	w.sig = append(w.sig, "setenv")
+	w.t.Emit(core.Ev{"ev": "Env", "k": core.Str(k), "v": core.Str(v), "set": true})
+}
+
+func (w *world) envEv() []interface{} {
+	ks := make([]string, 0, len(w.env))
+	for k := range w.env {
+		ks = append(ks, k)
+	}
+	sort.Strings(ks)
+	out := []interface{}{}
+	for _, k := range ks {
+		out = append(out, []core.Bytes{core.Str(k), core.Str(w.env[k])})
+	}
+	return out
+}
+
+// addObs: ConfigObserver.Add under a name that is new or taken, of a new observer object or
+// (sometimes) of one that is registered already
+func (w *world) addObs() {
+	r := w.r
+	name := obsNames[r.Intn(len(obsNames))]
+	var o *recObs
+	if len(w.objs) > 0 && r.Intn(5) == 0 {
+		o = w.objs[r.Intn(len(w.objs))]
+	} else {
+		o = &recObs{id: len(w.objs), notes: &w.notes, w: w}
+		w.objs = append(w.objs, o)
+	}
+	w.ob.Add(name, o)
+	w.sig = append(w.sig, "add")
+	w.t.Emit(core.Ev{"ev": "ObsAdd", "name": core.Str(name), "id": o.id})
+}
+
+// deleteFile plays the external writer taking the file away: unlink, rename away, or (through a
+// symbolic link) the file the link leads to removed so that the link dangles
+func (w *world) deleteFile() {
+	how := w.r.Intn(3)
+	switch how {
+	case 0:
+		if err := os.Remove(w.path); err != nil {
+			panic(err)
+		}
+	case 1:
+		if err := os.Rename(w.path, w.path+".away"); err != nil {
+			panic(err)
+		}
+	default:
+		p, err := filepath.EvalSymlinks(w.path)
+		if err != nil {
+			panic(err)
+		}
+		if err := os.Remove(p); err != nil {
+			panic(err)
+		}
+	}
+	if _, err := os.Stat(w.path); !os.IsNotExist(err) {
+		panic(fmt.Sprint("the configuration file is still there: ", err))
+	}
+	w.gone, w.everGone = true, true
+	w.sig = append(w.sig, "del")
+	w.t.Emit(core.Ev{"ev": "Delete", "how": how})
+}
 
 func (w *world) bump(within bool) {
 	if within && w.ms < 980 {
@@ -182,6 +353,7 @@ func (w *world) writeFile() []byte {
 		}
 	}
 	setStamp(w.path, w.sec, w.ms)
+	w.gone = false
 	w.remember()
 	return data
 }
@@ -192,23 +364,31 @@ func (w *world) reset(gen string, cas int, pre, suf string, excl []string, nobs 
 
 // resetPlan: plan = what happens inside the constructor's own reload (only with w.gate)
 func (w *world) resetPlan(gen string, cas int, pre, suf string, excl []string, nobs int, plan pollPlan) {
-	w.writeFile()
+	if w.startGone {
+		os.Remove(w.path) // (a layout's symbolic link)
+		w.gone = true
+		w.remember()
+	} else {
+		w.writeFile()
+	}
 	ex := make([]core.Bytes, 0)
 	for _, k := range excl {
 		ex = append(ex, core.Str(k))
 	}
 	w.t.Reset(gen, cas, core.Ev{"pre": core.Str(pre), "suf": core.Str(suf), "excl": ex, "nobs": nobs,
-		"file": linesEv(w.lines), "mt": []int{w.sec, w.ms}, "layout": w.layout})
+		"file": linesEv(w.lines), "mt": []int{w.sec, w.ms}, "layout": w.layout,
+		"exists": !w.gone, "penv": w.envEv(), "libdefs": defaultsEv()})
 	opts := []conffile.FileConfigOption{conffile.WithHomePath(w.home)}
 	if w.gate {
 		opts = append(opts, conffile.WithParser(&gateParser{inner: conffile.NewDefaultFileParser(), w: w}))
 	}
-	if nobs > 0 {
-		ob := config.NewConfigObserver()
+	if nobs > 0 || w.wantOb {
+		// nobs Add calls before the constructor runs (a name may be taken twice already)
+		w.ob = config.NewConfigObserver()
 		for i := 0; i < nobs; i++ {
-			ob.Add(fmt.Sprint("obs", i), &recObs{&w.notes, w})
+			w.addObs()
 		}
-		opts = append(opts, conffile.WithConfigObserver(ob))
+		opts = append(opts, conffile.WithConfigObserver(w.ob))
 	}
 	if pre != "" {
 		opts = append(opts, conffile.WithPrefix(pre))
@@ -234,6 +414,50 @@ func (w *world) resetPlan(gen string, cas int, pre, suf string, excl []string, n
 	w.t.Emit(core.Ev{"ev": "New", "snap": snapshot(w.conf), "notes": w.takeNotes()})
 }
 
+// the library's defaults: what the public ApplyDefault() puts into a configuration that
+// has loaded nothing (no file in its home directory), projected like every snapshot
+var defaultsOnce struct {
+	done bool
+	m    map[string]string
+	ev   []interface{}
+}
+
+func defaultsMap() map[string]string {
+	d := &defaultsOnce
+	if d.done {
+		return d.m
+	}
+	dir, err := os.MkdirTemp("", "c18-defaults-")
+	if err != nil {
+		panic(err)
+	}
+	defer os.RemoveAll(dir)
+	conf := conffile.NewFileConfigForVerif(conffile.WithHomePath(dir))
+	if n := len(conf.GetKeys()); n != 0 {
+		panic(fmt.Sprint("a configuration without a file has ", n, " keys"))
+	}
+	conf.ApplyDefault()
+	d.m = map[string]string{}
+	keys := conf.GetKeys()
+	sort.Strings(keys)
+	d.ev = []interface{}{}
+	for _, k := range keys {
+		if !usableKey(k) {
+			panic("the environment names the library's default key " + k)
+		}
+		v := conf.GetValue(k)
+		d.m[k] = v
+		d.ev = append(d.ev, []core.Bytes{core.Str(k), core.Str(v)})
+	}
+	d.done = true
+	return d.m
+}
+
+func defaultsEv() []interface{} {
+	defaultsMap()
+	return defaultsOnce.ev
+}
+
 func (w *world) takeNotes() []interface{} {
 	n := w.notes
 	w.notes = nil
@@ -245,6 +469,7 @@ func (w *world) takeNotes() []interface{} {
 
 func (w *world) edit() {
 	data := w.writeFile()
+	w.gone = false
 	w.t.Emit(core.Ev{"ev": "Edit", "lines": linesEv(w.lines), "parsed": linesEv(parseProps(data)), "mt": []int{w.sec, w.ms}})
 }
 
@@ -308,18 +533,37 @@ func (w *world) hashTable(k, def, deli string, java bool) []interface{} {
 	for _, v := range w.seen[k] {
 		add(v)
 	}
+	if v, ok := w.env[k]; ok {
+		add(v)
+	}
+	if v, ok := defaultsMap()[k]; ok {
+		add(v)
+	}
 	return out
 }
 
 var getterKinds = []string{"Value", "ValueDef", "Boolean", "Int", "Long", "Float", "StringArray", "IntSet", "StringHashSet", "StringHashCodeSet", "Keys"}
 
+var absentKeys = []string{"absent_key", "no.such", "zz", "키없음"}
+
+// a few of the library's defaults (what a file that disappeared leaves behind)
+var defaultKeys = []string{"enabled", "net_udp_port", "trace_user_header_ticket", "mtrace_rate", "tx_max_count", "debug"}
+
 func (w *world) pickKey() string {
 	r := w.r
+	if len(w.envKeys) > 0 && r.Intn(4) == 0 {
+		return w.envKeys[r.Intn(len(w.envKeys))] // a key the environment names (or named)
+	}
+	if w.everGone && r.Intn(4) == 0 {
+		if k := defaultKeys[r.Intn(len(defaultKeys))]; usableKey(k) {
+			return k
+		}
+	}
 	if len(w.keyset) > 0 && r.Intn(10) < 8 {
 		return w.keyset[r.Intn(len(w.keyset))]
 	}
 	for {
-		k := []string{"absent_key", "no.such", "zz", "키없음"}[r.Intn(4)]
+		k := absentKeys[r.Intn(4)]
 		if usableKey(k) {
 			return k
 		}
@@ -539,14 +783,38 @@ func histEdit(c *core.Ctx, t *core.Trace, gen string, cas int) {
 	w.final = r.Intn(5) != 0
 	w.initialFile(1+r.Intn(5), true, allForms, false)
 	w.sec, w.ms = r.Intn(5), r.Intn(1000)
-	w.reset(gen, cas, "", "", nil, r.Intn(3))
+	w.drawEnv()
+	w.wantOb = r.Intn(4) > 0
+	w.startGone = r.Intn(12) == 0
+	w.reset(gen, cas, "", "", nil, r.Intn(4))
 	if w.conf == nil {
 		return
 	}
-	steps := 3 + r.Intn(5)
+	steps := 3 + r.Intn(6)
 	edits := 0
 	for s := 0; s < steps; s++ {
-		switch x := r.Intn(10); {
+		switch x := r.Intn(14); {
+		case x == 10 && !w.gone:
+			// the file disappears; the poller looks once or twice; sometimes a write-back is asked for
+			w.deleteFile()
+			for n := r.Intn(3); n > 0; n-- {
+				w.reload()
+				w.someGets(1 + r.Intn(3))
+			}
+			if r.Intn(4) == 0 {
+				w.setValues(map[string]string{plainKey(r): plainValue(r)})
+			}
+		case x == 11 || x == 10:
+			w.envChange()
+			w.someGets(1 + r.Intn(3))
+		case x >= 12:
+			if w.ob != nil {
+				for n := 1 + r.Intn(2); n > 0; n-- {
+					w.addObs()
+				}
+			} else {
+				w.someGets(1)
+			}
 		case x < 6:
 			n := 1
 			if r.Intn(3) == 0 {
@@ -601,6 +869,20 @@ func (w *world) setValues(kv map[string]string) {
 		m[k] = kv[k]
 		pairs = append(pairs, []core.Bytes{core.Str(k), core.Str(kv[k])})
 	}
+	if w.gone {
+		// a write-back while the file is away: its read fails and nothing is written
+		if !w.noFatal {
+			return
+		}
+		if msg := core.Guard(func() { w.conf.SetValues(&m) }); msg != "" {
+			w.t.Emit(core.Ev{"ev": "Panic", "in": "SetValues", "msg": msg})
+			return
+		}
+		_, err := os.Stat(w.path)
+		w.sig = append(w.sig, "wbgone")
+		w.t.Emit(core.Ev{"ev": "SetValuesGone", "kv": pairs, "exists": !os.IsNotExist(err)})
+		return
+	}
 	if msg := core.Guard(func() { w.conf.SetValues(&m) }); msg != "" {
 		w.t.Emit(core.Ev{"ev": "Panic", "in": "SetValues", "msg": msg})
 		return
@@ -643,12 +925,30 @@ func histWb(c *core.Ctx, t *core.Trace, gen string, cas int, md wbMode) {
 		excl = []string{"license", plainKey(r)}
 	}
 	w.sec, w.ms = r.Intn(5), r.Intn(1000)
+	w.drawEnv()
+	w.wantOb = true
 	w.reset(gen, cas, pre, suf, excl, 1)
 	if w.conf == nil {
 		return
 	}
 	rounds := 2 + r.Intn(3)
 	for i := 0; i < rounds; i++ {
+		if r.Intn(5) == 0 {
+			w.addObs()
+		}
+		if r.Intn(8) == 0 {
+			// the file is away for a while: a poll, a write-back that cannot read it, the file is back
+			w.deleteFile()
+			if r.Intn(3) > 0 {
+				w.reload()
+			}
+			w.setValues(map[string]string{plainKey(r): plainValue(r)})
+			w.sig = append(w.sig, w.mutate(md.exoticKeys, md.forms, md.plainVals, false))
+			w.bump(r.Intn(2) == 0)
+			w.edit()
+			w.reload()
+			w.someGets(1 + r.Intn(2))
+		}
 		kv := map[string]string{}
 		used := map[string]bool{}
 		n := 1 + r.Intn(3)
@@ -721,7 +1021,8 @@ func Run(c *core.Ctx) error {
 	for _, e := range []string{"WHATAP_HOME", "WHATAP_CONFIG_HOME", "WHATAP_CONFIG"} {
 		os.Unsetenv(e)
 	}
-	c.Rule = "histories of external edits (7 line forms of the properties syntax, 11 value classes, several edits per second), reloads, 11 getter kinds with defaults, observers, write-backs with prefix/suffix/exclusions; reloads taken apart at the parser and at the observers with edits, getters and write-backs between their steps (gen ilv: non-trivial if an edit or write-back fell inside a reload); the configuration file reached through 7 (in-process) / 12 (strace) layouts of links, relative paths and environment variables; the write-back's system calls under strace; 8 readers against the reloading goroutine; a history is non-trivial if it has an edit followed by a reload or a write-back; distinct by its layout and sequence of step kinds"
+	inherited() // the environment this process was given, before any history sets a variable
+	c.Rule = "histories of external edits (7 line forms of the properties syntax, 11 value classes, several edits per second), the file deleted / renamed away / its link left dangling and created again, reloads, 11 getter kinds with defaults, environment variables named like keys that are absent, present and present-but-empty in the file (set, changed, unset during the history), observer registries written during the history (Add under new and taken names, one object under several names), write-backs with prefix/suffix/exclusions; reloads taken apart at the parser and at the observers with edits, getters and write-backs between their steps (gen ilv: non-trivial if an edit or write-back fell inside a reload); the configuration file reached through 7 (in-process) / 12 (strace) layouts of links, relative paths and environment variables; the write-back's system calls under strace; 8 readers against the reloading goroutine; a history is non-trivial if it has an edit followed by a reload or a write-back; distinct by its layout and sequence of step kinds"
 	t := c.Trace("c18_conf", "Trace_FileConfig")
 	tf := c.Trace("c18_fs", "Trace_FsWrite")
 
@@ -756,6 +1057,13 @@ func Run(c *core.Ctx) error {
 	if c.OnlyGen == "kf_wbescape" {
 		// values that need the syntax's escapes: a leading blank, two backslashes
 		histWitness(c, t, "kf_wbescape", "a=1\n", map[string]string{"greeting": " hello", "path": "two\\\\slashes"})
+	}
+	if c.OnlyGen == "kf_vanish" {
+		// the file vanishes between a reload's stat and its read (child process: the library's
+		// parser terminates the process)
+		if err := histVanish(c, t, "kf_vanish", 0); err != nil {
+			return err
+		}
 	}
 	if c.WantGen("ilv") {
 		md := wbMode{forms: allForms, exoticKeys: true, plainVals: false}
